@@ -916,8 +916,8 @@ func (g *gen) handlerCase() Input {
 	return in
 }
 
-func v(s int) Ver        { return Ver{0, s} }
-func rl(a, b int) Rule   { return Rule{v(a), v(b)} }
+func v(s int) Ver      { return Ver{0, s} }
+func rl(a, b int) Rule { return Rule{v(a), v(b)} }
 func oks(n int) []Step {
 	var p []Step
 	for i := 0; i < n; i++ {
